@@ -612,7 +612,54 @@ def r10_7(ctx):
     borrow(ctx, r19_6, "R19.6", "R10.7", " [exactly the printed lines, in order, above the live frame: while a live display runs, print() goes through FileProxy, whose pending-line buffer must be neither lost nor replayed]")
 
 
-RULES = [r10_1, r10_2, r10_3, r10_4, r10_5, r10_6, r10_7]
+def r10_8(ctx):
+    ctx.rule("R10.8", "everything printed while a live display runs goes through the render hooks: in Console.print and Console.log every path from entry to a normal return passes through the loop `for hook in self._render_hooks: renderables = hook.process_renderables(renderables)` or delegates to print()/log() - no path writes to the buffer directly (self.line(), self.out(), self._buffer.append) and returns, because such output lands below the live frame without the frame being erased and redrawn (a remnant of the old frame stays on screen)")
+    cls = ctx.repo.cls("console:Console")
+    for name in ("print", "log"):
+        f = cls.method(name)
+        if f is None:
+            raise AnchorVanished(f"Console.{name} not found")
+        m = f.module
+        g = cfgmod.build(f.node)
+        through = set()
+        for nd in g.nodes:
+            if nd.id not in g.reachable:
+                continue
+            if nd.kind == "for" and isinstance(nd.stmt, ast.For) and norm(nd.stmt.iter) == "self._render_hooks" and any(isinstance(c, ast.Call) and isinstance(c.func, ast.Attribute) and c.func.attr == "process_renderables" for c in ast.walk(nd.stmt)):
+                through.add(nd.id)
+            if nd.kind == "stmt" and not isinstance(nd.stmt, (ast.With, ast.For, ast.If, ast.While, ast.Try)):
+                for x in ast.walk(nd.stmt):
+                    if isinstance(x, ast.Call) and isinstance(x.func, ast.Attribute) and norm(x.func.value) == "self" and x.func.attr in ("print", "log") and x.func.attr != name:
+                        through.add(nd.id)
+        hooks_loop = [x for x in walk_local(f.node) if isinstance(x, ast.For) and norm(x.iter) == "self._render_hooks"]
+        if not through and not hooks_loop:
+            ctx.violation(f.fq, "render hooks", f.where, f"Console.{name} never applies the render hooks: output printed during a live display is not placed above the frame")
+            continue
+        # nodes that put text into the buffer without the hooks
+        al = alias_map(f.node)
+
+        def direct(e):
+            for x in ast.walk(e):
+                if isinstance(x, ast.Call) and norm(expand_alias(x.func, al)) in ("self.line", "self.out", "self._buffer.append", "self._buffer.extend"):
+                    return x
+            return None
+        n = 0
+        for nd in g.stmt_nodes():
+            if nd.kind != "stmt" or isinstance(nd.stmt, (ast.With, ast.For, ast.If, ast.While, ast.Try)):
+                continue
+            dx = direct(nd.stmt)
+            if dx is None:
+                continue
+            n += 1
+            # is this write preceded by the hook loop on every path?  (the regular path extends the buffer after the loop)
+            r = g.reach([g.entry], avoid=through)
+            ok = nd.id not in r
+            ctx.check(ok, f.fq, short(nd.stmt), f"{m.relpath}:{nd.lineno}", "buffer written only after the render hooks were applied",
+                      f"Console.{name}: `{short(nd.stmt)}` writes to the output buffer on a path that skips the render hooks: printed during a live display it is not preceded by the erase of the frame nor followed by its redraw - the old frame stays on screen above the new output", g.describe_path(g.path(g.entry, {nd.id}, avoid=through) or []))
+        ctx.floor(n, 1, f"buffer writes in Console.{name}")
+
+
+RULES = [r10_1, r10_2, r10_3, r10_4, r10_5, r10_6, r10_7, r10_8]
 
 
 def _xcheck(ctx):
